@@ -17,6 +17,13 @@ import ModVerif.Proofs.GoRtLemmasStr
 namespace ModVerif.GoRtLex
 open ModVerif ModVerif.GoRt ModVerif.GoRtStr
 
+/-- decidable equality on results, so that the non-vacuity examples of the tie theorems close by kernel `decide` -/
+instance exceptDecEq {ε α : Type} [DecidableEq ε] [DecidableEq α] : DecidableEq (Except ε α)
+  | .ok a, .ok b => if h : a = b then isTrue (by rw [h]) else isFalse (fun e => h (Except.ok.inj e))
+  | .error a, .error b => if h : a = b then isTrue (by rw [h]) else isFalse (fun e => h (Except.error.inj e))
+  | .ok _, .error _ => isFalse (fun e => by cases e)
+  | .error _, .ok _ => isFalse (fun e => by cases e)
+
 /-! ### strings.LastIndex with a one-byte needle -/
 
 theorem lastIndexAux_single (c : UInt8) : ∀ (s : Bytes) (k : Nat) (acc : Int),
